@@ -25,6 +25,7 @@ RULE = (
     ' Round 5: keys with U+0131/U+017F (upper-case to ASCII), near-miss keywords, file names with several dots, long components with tokens on 4096-multiples.'
     ' Round 6: SM chart fields framed by Unicode blanks, strict passed positionally.'
     ' Round 7: symbolic links across suffix classes, line iterators with empty items, headers of 70-100 properties.'
+    ' Round 8: texts with 257-300 charts.'
 )
 EXHAUSTIVE_PART = "thorough: every truncation of nekonabe.sm (and of the first 600 boundaries of L9.ssc and Springtime.ssc) at every structural boundary x all entry points x strict"
 ASSUMPTIONS = ["msdparser.parse_msd is the tokenizer the rules are applied to", "Python's text-mode newline translation"]
